@@ -178,3 +178,43 @@ func VH_C02_AppxBlockMap() {
 	}
 	vhReach("checked") // vh:require checked
 }
+
+// H02.appx-files: the signature's per-file digests (AXBM block map, AXCT
+// content types, AXCI code integrity). verifyFile against a package read by
+// the standard zip reader: a file with its digest verifies; ONE changed byte
+// (symbolic position and value) is rejected; a digest without its file and a
+// file without its digest are both rejected; neither present is fine (the
+// code-integrity catalog is optional).
+func VH_C02_AppxSignedFiles() {
+	vhMaxLen(4096)
+	vhLoopBound(400)
+	body := []byte("<BlockMap/>")
+	sum := sha256.Sum256(body)
+	sig := &AppxSignature{Hash: crypto.SHA256, HashValues: map[string][]byte{"AXBM": sum[:]}}
+	open := func(ms []*vhMember) zipFiles {
+		file, _ := vhZip(ms)
+		zr, err := zip.NewReader(bytes.NewReader(file), int64(len(file)))
+		vhAssert(err == nil, "zip-opens")
+		files := make(zipFiles)
+		for _, f := range zr.File {
+			files[f.Name] = f
+		}
+		return files
+	}
+	other := &vhMember{name: "a.dll", data: []byte("x")}
+	vhAssert(verifyFile(open([]*vhMember{other, {name: appxBlockMap, data: body}}), sig, "AXBM", appxBlockMap) == nil, "signed-file-verifies")
+	vhAssert(verifyFile(open([]*vhMember{other}), sig, "AXCI", appxCodeIntegrity) == nil, "optional-file-absent-on-both-sides-is-fine")
+	switch vhConcretize(vhInt("alteration", 0, 2), 3) {
+	case 0:
+		t := append([]byte{}, body...)
+		p := vhConcretize(vhInt("changed-byte", 0, len(t)-1), 16)
+		t[p] = vhU8("new-value")
+		vhAssume(t[p] != body[p])
+		vhAssert(verifyFile(open([]*vhMember{other, {name: appxBlockMap, data: t}}), sig, "AXBM", appxBlockMap) != nil, "changed-byte-rejected")
+	case 1:
+		vhAssert(verifyFile(open([]*vhMember{other}), sig, "AXBM", appxBlockMap) != nil, "signed-file-removed-rejected")
+	case 2:
+		vhAssert(verifyFile(open([]*vhMember{other, {name: appxContentTypes, data: []byte("<Types/>")}}), sig, "AXCT", appxContentTypes) != nil, "file-without-a-signed-digest-rejected")
+	}
+	vhReach("checked") // vh:require checked
+}
